@@ -490,7 +490,13 @@ func classifyReplay(kind, out string) string {
 		}
 		return "inconclusive: the real code panics on the model input (" + line + "); the violated clause itself was not evaluated"
 	case strings.Contains(out, "fatal error:"):
-		return "REPRODUCED: the real code dies on the model input: " + firstLineWith(out, "fatal error:")
+		line := firstLineWith(out, "fatal error:")
+		if strings.Contains(line, "out of memory") || strings.Contains(line, "makeslice") || strings.Contains(line, "stack overflow") || strings.Contains(line, "cannot allocate") {
+			if kind == "alloc" || kind == "make" || kind == "pre" || kind == "index" || kind == "slice" {
+				return "REPRODUCED: the real code dies on the model input: " + line
+			}
+		}
+		return "inconclusive: the real code dies on the model input, but in a way the replay environment may have caused (" + line + ")"
 	case strings.Contains(out, "panic: test timed out"):
 		return "REPRODUCED: the real code does not terminate on the model input (60 s)"
 	case strings.Contains(out, "REPLAY-VIOLATED"):
